@@ -128,7 +128,13 @@ def make(P, sort, name, depth):
         return SEnum(sort[1], idx)
     if k == 'datetime':
         secs = V.fresh_int(name)
-        return SDateTime(secs, z3.IntVal(0), aware=sort[1] if len(sort) > 1 else False)
+        aware = sort[1] if len(sort) > 1 else P.choose('%s is timezone aware' % name)
+        off = None
+        if aware:
+            # an aware value in any time zone: UTC offset strictly between -24 h and +24 h (what tzinfo allows)
+            off = V.fresh_int(name + '_utcoffset')
+            P.assume(z3.And(off > -86400, off < 86400))
+        return SDateTime(secs, z3.IntVal(0), aware=aware, off=off)
     if k == 'optional':
         if P.choose('%s is None' % name):
             return None
